@@ -1,6 +1,7 @@
 // gcv: static checker for the gocoin properties in /verif/properties.jsonl.
 // Usage: gcv -p C04 -tier quick|thorough
-//        gcv -explain <replay.json>
+//
+//	gcv -explain <replay.json>
 package main
 
 import (
@@ -74,5 +75,14 @@ func runOne(id, tier string, fn props.CheckFunc) (code int) {
 		}
 	}()
 	fn(r)
+	if tier == "thorough" && os.Getenv("GCV_VARIANT") == "" {
+		r.Variants, r.VariantSummary = selfTest(id)
+		fmt.Println("thorough:", r.VariantSummary)
+		for _, v := range r.Variants {
+			if v.Status == "missed" {
+				fmt.Println("  variant not detected by this property's rules:", v.Name)
+			}
+		}
+	}
 	return r.Finish()
 }
